@@ -51,6 +51,12 @@ pub enum Ctx6 {
     InAdjacent,
     /// inside an `.adjacent()` sub-command
     InAdjCommand,
+    /// the later branch of an optional choice whose earlier branch fails with a message of its
+    /// own (`--job N` under `some("..")`): `[--job.. | item].optional()`
+    AltAfterSome,
+    /// inside a sub-command that is the later branch of a choice whose earlier branch takes any
+    /// words (`[FILE.. | cmd ..]`): an entered command's failure is final
+    AltCmdLater,
 }
 #[derive(Clone, Debug, Serialize, Deserialize)]
 pub struct Def {
@@ -160,7 +166,8 @@ pub fn to_opts(d: &Def) -> Opts {
     }
     let is_pos = d.prim == Prim::Pos;
     let field = match d.ctx {
-        Ctx6::Top | Ctx6::InCommand | Ctx6::InAdjCommand => item,
+        Ctx6::Top | Ctx6::InCommand | Ctx6::InAdjCommand | Ctx6::AltCmdLater => item,
+        Ctx6::AltAfterSome => P::Alt(vec![P::Map(P::Some_(P::arg(Names::long("job"), Ty::U32).bx(), false).bx(), "jobs".into()), P::Map(item.bx(), "it".into())]).opt(),
         Ctx6::AltBranch => P::Alt(vec![P::Map(item.bx(), "it".into()), P::Map(P::ReqFlag(Names::both('z', "zed")).bx(), "z".into())]),
         Ctx6::InAdjacent => P::Adj(vec![P::ReqFlag(Names::both('g', "grp")), item]).opt(),
     };
@@ -172,6 +179,7 @@ pub fn to_opts(d: &Def) -> Opts {
     match d.ctx {
         Ctx6::InCommand => Opts::new(P::Seq(vec![P::Switch(Names::both('o', "outer")), P::cmd("cmd", level)])),
         Ctx6::InAdjCommand => Opts::new(P::Seq(vec![P::Switch(Names::both('o', "outer")), P::Cmd { name: "cmd".into(), shorts: vec![], longs: vec![], inner: Box::new(level), adjacent: true, help: None }])),
+        Ctx6::AltCmdLater => Opts::new(P::Seq(vec![P::Switch(Names::both('o', "outer")), P::Alt(vec![P::Map(P::Pos { ty: Ty::Os, strict: Strict::Any, metavar: "FILE".into(), help: None }.many().bx(), "files".into()), P::cmd("cmd", level)])])),
         _ => level,
     }
 }
@@ -231,12 +239,12 @@ pub fn alphabet_for(d: &Def) -> Vec<Tok> {
     }
     match d.ctx {
         Ctx6::AltBranch => a.push(Tok::s("-z")),
-        Ctx6::InCommand | Ctx6::InAdjCommand => {
+        Ctx6::InCommand | Ctx6::InAdjCommand | Ctx6::AltCmdLater => {
             a.push(Tok::s("cmd"));
             a.push(Tok::s("-o"));
         }
         Ctx6::InAdjacent => a.push(Tok::s("--grp")),
-        Ctx6::Top => {}
+        Ctx6::Top | Ctx6::AltAfterSome => {}
     }
     a
 }
@@ -294,7 +302,15 @@ fn viol(rule: &str, d: &Def, unit: &Value, what: &str, base: &[Tok], argv: &[Tok
 }
 
 fn check_accepted(d: &Def, unit: &Value, p: &bpaf::OptionParser<Val>, argv: &[Tok], only: Option<&[Tok]>, ctx: &mut Ctx) {
-    let occ = typed_occurrences(d, argv);
+    let mut occ = typed_occurrences(d, argv);
+    // beside a word-taking branch only what follows the first item, the command name, is the
+    // command's (anything in front of it makes the line one of the other branch)
+    if d.ctx == Ctx6::AltCmdLater {
+        if argv.first().map_or(true, |t| t.0 != b"cmd") {
+            return;
+        }
+        occ.retain(|(ti, _)| *ti > 0);
+    }
     if occ.is_empty() {
         return;
     }
@@ -400,12 +416,13 @@ fn check_accepted(d: &Def, unit: &Value, p: &bpaf::OptionParser<Val>, argv: &[To
     }
     ctx.s.evaluations += 1;
     let r = run(p, &v3);
-    let expect_value = absent_ok(&d.stack);
+    // (an optional choice is absent as a whole)
+    let expect_value = absent_ok(&d.stack) || d.ctx == Ctx6::AltAfterSome;
     let group_absent = d.ctx == Ctx6::InAdjacent && !v3.iter().any(|t| t.0 == b"--grp");
     // with fallback_to_usage a level that got no items at all answers with its usage
     let level_empty = d.usage
         && (v3.is_empty()
-            || (matches!(d.ctx, Ctx6::InCommand | Ctx6::InAdjCommand)
+            || (matches!(d.ctx, Ctx6::InCommand | Ctx6::InAdjCommand | Ctx6::AltCmdLater)
                 && v3.iter().position(|t| t.0 == b"cmd").map_or(false, |c| v3[c + 1..].iter().all(|t| t.0 == b"-o" || t.0 == b"--outer"))));
     let ok = match (&r, expect_value || group_absent) {
         (Outcome::Value(_), true) => true,
@@ -432,7 +449,7 @@ fn env_clause(d: &Def, unit: &Value, p: &bpaf::OptionParser<Val>, ctx: &mut Ctx)
         std::env::remove_var(ENVV);
         std::env::remove_var(ENVV2);
         std::env::set_var(var, Tok(val.to_vec()).os());
-        let argv: Vec<Tok> = if matches!(d.ctx, Ctx6::InCommand | Ctx6::InAdjCommand) { toks(&["cmd"]) } else if d.ctx == Ctx6::InAdjacent { toks(&["--grp"]) } else { vec![] };
+        let argv: Vec<Tok> = if matches!(d.ctx, Ctx6::InCommand | Ctx6::InAdjCommand | Ctx6::AltCmdLater) { toks(&["cmd"]) } else if d.ctx == Ctx6::InAdjacent { toks(&["--grp"]) } else { vec![] };
         ctx.s.evaluations += 1;
         let r = run(p, &argv);
         std::env::remove_var(ENVV);
@@ -637,6 +654,14 @@ impl Check for C06 {
                 }
             }
         }
+        // the item as the later branch of a choice / inside a command that is the later branch
+        for prim in [Prim::ArgFromStr, Prim::ArgGuard, Prim::EnvArg] {
+            for s in stacks(2) {
+                for c in [Ctx6::AltAfterSome, Ctx6::AltCmdLater] {
+                    out.push(Def { prim, stack: s.clone(), ctx: c, neighbours: 0, len: tier.pick(3, 4), usage: false });
+                }
+            }
+        }
         let mut out: Vec<Value> = out.into_iter().map(|d| serde_json::to_value(d).unwrap()).collect();
         for group_wrap in 0..4 {
             for adjacent in [false, true] {
@@ -700,7 +725,7 @@ impl Check for C06 {
         }
     }
     fn rule(&self) -> String {
-        "definitions = typed u32 primitive {argument via FromStr, argument via .parse(f), guarded argument, positional, env-backed argument} under EVERY type-correct wrapper stack of depth <= 3 from {guard, hide, fallback, fallback_with ok/err, last, optional, many, some, collect (with and without catch), guard on the list, fallback on the list} in 5 contexts {top-level field, branch of an alternative, inside a sub-command, member of an adjacent group, inside an adjacent sub-command} beside 0..2 neutral items, the bare levels also with fallback_to_usage (a present invalid value still fails with its own message); accepted vectors are discovered on the whole token tree; for each, every typed value occurrence is replaced by each of {x, empty, -1 attached, 99999999999, \\xff, guard-violating 11} -> must be an stderr failure whose text carries the FromStr / parse / guard message (text not demanded inside an alternative, nothing demanded under catch); the item removed -> a value iff the stack defaults when absent, else an stderr failure; env-backed: invalid (unparsable, empty, non-UTF-8) variable with the item absent from the line fails the same way; plus a guard attached to a GROUP of two arguments (plain and adjacent), the group bare / optional / many / some, judged on every vector of length <= 5-6 by a pairing model (k-th --min with k-th --max; a present pair violating the guard must fail with the guard's message, whichever repetition it is); evaluation = one run; non-trivial = accepted vector containing a typed value".into()
+        "definitions = typed u32 primitive {argument via FromStr, argument via .parse(f), guarded argument, positional, env-backed argument} under EVERY type-correct wrapper stack of depth <= 3 from {guard, hide, fallback, fallback_with ok/err, last, optional, many, some, collect (with and without catch), guard on the list, fallback on the list} in 5 contexts {top-level field, branch of an alternative, inside a sub-command, member of an adjacent group, inside an adjacent sub-command} beside 0..2 neutral items, the bare levels also with fallback_to_usage (a present invalid value still fails with its own message); accepted vectors are discovered on the whole token tree; for each, every typed value occurrence is replaced by each of {x, empty, -1 attached, 99999999999, \\xff, guard-violating 11} -> must be an stderr failure whose text carries the FromStr / parse / guard message (text not demanded inside an alternative, nothing demanded under catch); the item removed -> a value iff the stack defaults when absent, else an stderr failure; env-backed: invalid (unparsable, empty, non-UTF-8) variable with the item absent from the line fails the same way; plus a guard attached to a GROUP of two arguments (plain and adjacent), the group bare / optional / many / some, judged on every vector of length <= 5-6 by a pairing model (k-th --min with k-th --max; a present pair violating the guard must fail with the guard's message, whichever repetition it is); evaluation = one run; non-trivial = accepted vector containing a typed value; two more contexts for stacks of depth <=2: the item as the later branch of an optional choice whose earlier branch fails with a message of its own ([--job.. some | item].optional()), and the item inside a command that is the later branch of a choice whose earlier branch takes any words ([FILE.. | cmd ..])".into()
     }
     fn bounds(&self, tier: Tier) -> Value {
         json!({"stack_depth": 3, "base_vector_length": tier.pick(3, 4)})
